@@ -235,8 +235,10 @@ class Engine:
                 targets = [exact]
                 must_hit = True
             elif exact is not None:
+                # the level named sits exactly on the cap: used, or excluded - and then the price is merely near the
+                # remaining levels, exactly as a price on a level strictly beyond the cap is (never seen as "exact")
                 d.limit_class = "on-cap-tie-level"
-                targets = [exact]
+                targets = [exact] + [i for i in targets if i != exact and i in d.allowed_strict]
                 d.reject_ok = True
             elif targets:
                 d.limit_class = "near-level"
